@@ -186,19 +186,7 @@ def check(s):
         calls = [c for c in walk(pr.ret) if isinstance(c, tuple) and c and c[0] == "call" and c[1] == ("attr", ("attr", self_, "env"), "reset")]
         s.ob("C01.8", "LeraxToGymEnv.reset", len(calls) == 1 and pr.self_attrs.get("state") == ("item", calls[0], 0), "reset stores element 0 of the env.reset call it reports", s.loc("LeraxToGymEnv", "reset"),
              key="gym-adapter-reset", detail=show(pr.self_attrs.get("state", NONE), maxlen=120))
-    # the adapter's running key: every reset / step consumes a split of self.key AND stores the other half back, so that successive
-    # episodes (auto-resets) start from freshly drawn states; a helper that splits without storing makes every episode start alike
-    bk = s.builder(inline={"_next_key"})
-    for meth in ("reset", "step"):
-        for pk in live(s.paths(bk, "LeraxToGymEnv", meth)):
-            newk = pk.self_attrs.get("key")
-            calls = [c for c in walk(pk.ret) if isinstance(c, tuple) and c and c[0] == "call" and c[1] == ("attr", ("attr", self_, "env"), meth)]
-            used = dict((k, v) for k, v in calls[0][3] if k).get("key") if calls else None
-            ok_adv = (isinstance(newk, tuple) and newk[0] == "item" and isinstance(newk[1], tuple) and newk[1][0] == "call" and newk[1][1] == ("global", "jax.random.split")
-                      and isinstance(used, tuple) and used[0] == "item" and used[1] == newk[1] and used[2] != newk[2])
-            s.ob("C01.8", f"LeraxToGymEnv.{meth}", ok_adv, "the adapter stores one half of jr.split(key) back as its running key and uses the other half for this call", s.loc("LeraxToGymEnv", meth),
-                 key=f"gym-adapter-key-advance-{meth}", detail=f"self.key := {show(newk if newk is not None else NONE, maxlen=100)}; call key = {show(used if used is not None else NONE, maxlen=100)}",
-                 necessary_for="whenever a flag is raised the returned state is a FRESHLY drawn initial state (not the same one every episode)")
+    # (the adapter's running key - one half of jr.split stored back, the other used - is part of check_adapters below)
     # the gymnax adapter relies on gymnax's own public step / reset (which call reset_env and restart its `time` counter when an
     # episode ends): overriding them in the adapter bypasses that
     gx = P.cls("LeraxToGymnaxEnv")
